@@ -260,6 +260,12 @@ _my = dict(pkg="ariga.io/atlas/sql/mysql", hdir="mysql")
 _pg = dict(pkg="ariga.io/atlas/sql/postgres", hdir="postgres")
 _lt = dict(pkg="ariga.io/atlas/sql/sqlite", hdir="sqlite")
 _hcl = dict(initallow=["ariga.io/atlas/schemahcl", "github.com/zclconf/go-cty/cty", "github.com/go-openapi/inflect"])
+_hclfull = dict(initallow=["math/big", "ariga.io/atlas/schemahcl/...", "github.com/zclconf/go-cty/...", "github.com/go-openapi/inflect",
+                           "github.com/hashicorp/hcl/v2/...", "github.com/apparentlymart/go-textseg/...", "github.com/agext/levenshtein",
+                           "github.com/mitchellh/go-wordwrap"])
+_c15_doc = [dict(c, **_hclfull, harness="VerifHarness_C15_%s_doc_%s" % (d, fam), reach=["evaluated"])
+            for d, c in (("mysql", _my), ("postgres", _pg), ("sqlite", _lt)) for fam in ("types", "strings", "objects")] + [
+    dict(_my, **_hclfull, harness="VerifHarness_C15_mysql_doc_witness", role="witness", key="C15-mysql-check-not-enforced")]
 _c15_hcl = [
     dict(_my, **_hcl, harness="VerifHarness_C15_mysql_hcl", reach=["roundtrip"]),
     dict(_pg, **_hcl, harness="VerifHarness_C15_postgres_hcl", reach=["roundtrip", "sql-fallback"]),
@@ -268,13 +274,13 @@ _c15_hcl = [
 PROPS["C15"] = dict(
     _my,
     runs={
-        "quick": _c15_hcl + [
+        "quick": _c15_doc + _c15_hcl + [
             dict(_my, harness="VerifHarness_C15_mysql", reach=["formatted", "format-error"]),
             dict(_my, harness="VerifHarness_C15_mysql_witness", role="witness", key="C15-mysql-enum-quoting"),
             dict(_pg, harness="VerifHarness_C15_postgres", reach=["formatted", "format-error"]),
             dict(_lt, harness="VerifHarness_C15_sqlite", reach=["formatted"]),
         ],
-        "thorough": _c15_hcl + [
+        "thorough": _c15_doc + _c15_hcl + [
             dict(_my, harness="VerifHarness_C15_mysql2", reach=["formatted", "format-error"], cross=False),
             dict(_my, harness="VerifHarness_C15_mysql_witness", role="witness", key="C15-mysql-enum-quoting"),
             dict(_pg, harness="VerifHarness_C15_postgres", reach=["formatted", "format-error"]),
@@ -287,7 +293,11 @@ PROPS["C15"] = dict(
                  "symbolic byte; PostgreSQL: 20 families incl. 9 array spellings, same integer ranges (float precision 0..60); SQLite: 35 type names x "
                  "{no args, (n), (p,s)} x {lower, upper case}. HCL half (typed-spec level): the same catalogues (PostgreSQL intervals with a "
                  "precision only on fields that include seconds, MySQL VARBINARY always sized, enum/set values ASCII), each type taken as inspection "
-                 "yields it (ParseType of its formatted text)",
+                 "yields it (ParseType of its formatted text). Document level: per dialect three families of two-table schemas - types (column of every "
+                 "catalogue type x nullability), strings (9 strings incl. quotes, backslash, ${ }, %{ }, newline, empty as default / column comment / "
+                 "table comment; raw-expression and numeric defaults; auto_increment, charset/collation, ON UPDATE, generated column, WITHOUT ROWID where "
+                 "the dialect has them), objects (index unique / desc / prefix / expression part / predicate / type / comment; foreign key with 5 "
+                 "actions; named check with 3 expressions; and all of them together)",
         "thorough": "same with 2-byte enum/set values",
     },
     assumptions=[
@@ -298,14 +308,19 @@ PROPS["C15"] = dict(
         "gohcl decoding of the column block, where extra attributes such as unsigned travel as sibling attributes) is replaced by a 60-line "
         "name(args) splitter in the harness",
         "cty, gocty, go-openapi/inflect and math/big are executed from source on concrete parameters; cty.NormalizeString (Unicode NFC) is the identity on ASCII",
+        "document level: real MarshalHCL (schemahcl encode, hclwrite) -> bytes -> real EvalHCLBytes (hclparse/hclsyntax, schemahcl evaluator, specutil, "
+        "dialect converters) -> real DefaultDiff.SchemaDiff in both directions, then MarshalHCL again; the schemas are built as inspection builds them "
+        "(Raw type text, quoted default literals); symbolic integers are case-split where they enter big.Float / fmt",
+        "MySQL: the table-level AUTO_INCREMENT counter value is run-time state that MarshalHCL does not export by design (diff.autoIncChange) and is not generated",
     ],
-    outside="the HCL text layer (hclwrite / hclsyntax / gohcl), specutil conversions of tables, columns, defaults, indexes, keys and attributes "
-            "(reflection over struct tags: not encoded), byte-identical re-marshalling; user-defined / composite / domain types that need a live "
-            "database; parameter values beyond the ranges; non-ASCII enum values",
+    outside="schemas beyond the three families (no cross products of families, one or two tables, fixed identifiers: identifier bytes are not "
+            "symbolic because the HCL lexer would fork on every byte), views/triggers/functions and other non-OSS objects, partitions; user-defined / "
+            "composite / domain / enum-reference types that need a live database; parameter values beyond the ranges; non-ASCII enum values",
     claim="For every type of each dialect's catalogue within the parameter ranges, FormatType(ParseType(FormatType(t))) == FormatType(t), the "
           "formatted type parses to a supported built-in type, and a second round is idempotent; and the type written to HCL by the registry and "
-          "evaluated back through the registry means the same type (family, storage class, size, precision, scale, sign, values). MySQL ENUM/SET "
-          "values containing quotes, commas or backslashes are the listed known finding.",
+          "evaluated back through the registry means the same type (family, storage class, size, precision, scale, sign, values); and for every "
+          "schema of the document-level families, MarshalHCL then EvalHCLBytes gives a schema with an empty diff in both directions whose re-marshalled "
+          "bytes are identical. MySQL ENUM/SET values containing quotes, commas or backslashes, and MySQL NOT ENFORCED checks, are the listed known findings.",
     note="Type slice of C15 (format/parse fix-point and registry-level HCL round trip). Bounded parameter ranges; structural choice of the type family by forking.",
 )
 
@@ -483,9 +498,6 @@ _c20 = [
     dict(_pg, harness="VerifHarness_C20_postgres_scope", reach=["compared"]),
     dict(_lt, harness="VerifHarness_C20_sqlite", reach=["compared"]),
 ]
-_hclfull = dict(initallow=["math/big", "ariga.io/atlas/schemahcl/...", "github.com/zclconf/go-cty/...", "github.com/go-openapi/inflect",
-                           "github.com/hashicorp/hcl/v2/...", "github.com/apparentlymart/go-textseg/...", "github.com/agext/levenshtein",
-                           "github.com/mitchellh/go-wordwrap"])
 def _c20_hcl(dev):
     return [dict(c, **_hclfull, harness="VerifHarness_C20_%s_hcl" % d, reach=["compared"], flags=["-mapdev", str(dev)])
             for d, c in (("sqlite", _lt), ("mysql", _my), ("postgres", _pg))]
